@@ -23,8 +23,8 @@ UNIVERSE = [
 SMALL_KEYS = [None, True, 1, 1.0, 2, -1, 2.5, D('2.5'), 'a', 'b', b'a', dt.date(2020, 1, 1),
               dt.datetime(2020, 1, 1), (1, 'a'), (1, None)]
 # hashable scalar keys only, few distinct values
-SCALAR_KEYS = [None, 1, 2, 3, 'a', 'b', 2.5, True]
-INT_KEYS = [1, 2, 3]
+SCALAR_KEYS = [None, 1, 2, 3, 'a', 'b', 2.5, True, -1, -2]      # hash(-1) == hash(-2) in CPython
+INT_KEYS = [1, 2, 3, -1, -2]
 TEXT = ['a', 'b', 'c', '', 'xy']
 FIELD_NAMES = ['id', 'k', 'v', 'w', 'x', 'y', 'foo', 'bar', 'baz']
 
